@@ -579,6 +579,9 @@ func (session *HermesSession) Run(workingDir string, args []string, logID string
 			var STEPS float64
 			if WDT < g.DT.Num {
 				STEPS = g.DT.Num / WDT
+				// WDT is 1/n for an integer n; 1/(1/n) can fall just below n (n = 93, 99, 105, ...)
+				// and int(STEPS) would then drop the last sub-step of the day
+				STEPS = math.Round(STEPS)
 			} else {
 				STEPS, WDT = 1, 1
 			}
